@@ -14,7 +14,7 @@ META = dict(
 
 class C01(AttBase):
     tag = "C01"
-    quick_corpus = ["basic3", "fixed_handles", "includes", "values", "handlers", "mtu65", "mtu300", "enc_server_requires", "priorities"]
+    quick_corpus = ["basic3", "fixed_handles", "includes", "values", "handlers", "mtu300", "enc_server_requires"]
     quick_random = 3
     thorough_random = 60
     trusted_base = ["models coq/AttDb/AttDbModel.v, coq/AttSrv/AttSrvModel.v (hand written transcription, tied by this run)",
